@@ -152,6 +152,9 @@ class PathData(Ext):
             raise Undecided("comparison of path data with a literal")
         return isinstance(other, PathData) and repr(other.cmds) == repr(self.cmds)
 
+    def sym_hashkey(self):
+        return ("path-data", repr(self.cmds))
+
     def __repr__(self):
         return f"d<{show_cmds(self.cmds)}>"
 
@@ -208,13 +211,19 @@ def install_path_hooks(it: Interp, arc_stub=None):
     def seg(itp, a, k):
         return ("__seg__", a[0], tuple(a[1:]))
 
+    def _known(cmds):
+        if any(c == "G" for c, _ in cmds):
+            raise Undecided("the code reads the individual commands of a path computed by the geometry engine (Skia); "
+                            "their number and kind are not known to the abstract machine")
+        return list(cmds)
+
     def it_cmds(itp, a, k):
-        return list(get_d(a[0]).cmds)
+        return _known(get_d(a[0]).cmds)
 
     def parse(itp, a, k):
         d = a[0]
         if isinstance(d, PathData):
-            return list(d.cmds)
+            return _known(d.cmds)
         if d == "":
             return []
         raise Undecided("parse_svg_path on a string")
